@@ -257,7 +257,11 @@ func (c *checker) judge(ins []input, label string) {
 	}
 	t := mbt.MustTLC(mbt.TLCOpts{Spec: "FloatLitTrace", Cfg: "FloatLitTrace.cfg", Workers: 8, Continue: true,
 		Consts: map[string]string{"NChunks": strconv.Itoa(nch)}, Data: data, Timeout: 15 * time.Minute})
-	defer t.Cleanup()
+	if os.Getenv("VERIF_C10_KEEP") != "" {
+		fmt.Println("  kept TLC run directory", t.Dir)
+	} else {
+		defer t.Cleanup()
+	}
 	rep.AddTLC(t)
 	if t.Distinct != int64(3*nch+1) {
 		mbt.Infra("FloatLitTrace judged %d chunks of %d (%s)\n%s", (t.Distinct-1)/3, nch, label, tail(t.Output, 2000))
